@@ -639,6 +639,8 @@ type Browser struct {
 	Extra []string // unrelated cookies sent before the session cookie ("k=v")
 	After []string // unrelated cookies sent after it
 	Sub   string
+	// Headers go out with every request (forwarding headers and the like)
+	Headers map[string]string
 }
 
 // NewBrowser creates a browser.
@@ -705,6 +707,9 @@ func (b *Browser) ReqFor(target string) Req {
 		}
 	}
 	h := map[string]string{}
+	for k, v := range b.Headers {
+		h[k] = v
+	}
 	if ch := b.CookieHeader(); ch != "" {
 		h["cookie"] = ch
 	}
